@@ -26,11 +26,29 @@ _classes: Dict[str, type] = {}
 _fields: Dict[str, List[Tuple[str, str, Any]]] = {}
 
 
+class IRRejected(Exception):
+    """the IR class's own __post_init__ raised while the checker fabricated a node"""
+
+
+def _dataclass_flags(c):
+    flags = {}
+    for d in c.decorator_list:
+        if isinstance(d, ast.Call) and norm(d.func) in ("dataclass", "dataclasses.dataclass"):
+            for k in d.keywords:
+                flags[k.arg] = lit.try_ev(k.value)
+        elif norm(d) not in ("dataclass", "dataclasses.dataclass"):
+            raise AnalysisError(f"IR class {c.name} carries decorator {norm(d)}: fabricated nodes would not be faithful")
+    return flags
+
+
 def ir_classes():
-    """name -> fabricated class; fields (name, annotation text, default marker)"""
+    """name -> fabricated class; fields (name, annotation text, default marker).  The fabricated classes follow
+    transpile/ast.py: inheritance between IR classes, dataclass flags (frozen, slots), field order of dataclass
+    inheritance, and `__post_init__` (run by the checker's interpreter on every fabricated instance)."""
     if _classes:
         return _classes, _fields
     am = mod(AST_PY)
+    own_fields = {}
     for cname, c in am.classes.items():
         fl = []
         for st in c.body:
@@ -38,39 +56,93 @@ def ir_classes():
                 ann = norm(st.annotation)
                 if st.value is None:
                     d = ("required", None)
-                elif isinstance(st.value, ast.Call) and norm(st.value.func) == "field":
+                elif isinstance(st.value, ast.Call) and norm(st.value.func) in ("field", "dataclasses.field"):
                     fac = None
+                    dflt = "<none>"
                     for k in st.value.keywords:
                         if k.arg == "default_factory":
                             fac = norm(k.value)
-                    d = ("factory", fac)
+                        if k.arg == "default":
+                            dflt = lit.try_ev(k.value)
+                    d = ("factory", fac) if fac is not None else ("const", None if dflt == "<none>" else dflt)
                 else:
                     d = ("const", lit.try_ev(st.value))
                 fl.append((st.target.id, ann, d))
-        _fields[cname] = fl
+            elif isinstance(st, ast.FunctionDef) and st.name not in ("__post_init__",):
+                if st.name.startswith("__") or any(norm(x) in ("property", "staticmethod", "classmethod") for x in st.decorator_list):
+                    raise AnalysisError(f"IR class {cname} defines {st.name}: the fabricated stand-ins do not model it")
+        own_fields[cname] = fl
 
-        def make(cname=cname, fl=fl):
+    order = []
+
+    def visit(cname, stack=()):
+        if cname in order:
+            return
+        if cname in stack:
+            raise AnalysisError("cyclic IR class hierarchy")
+        for b_ in am.classes[cname].bases:
+            if isinstance(b_, ast.Name) and b_.id in am.classes:
+                visit(b_.id, stack + (cname,))
+        order.append(cname)
+
+    for cname in am.classes:
+        visit(cname)
+
+    for cname in order:
+        c = am.classes[cname]
+        bases = [b_.id for b_ in c.bases if isinstance(b_, ast.Name) and b_.id in am.classes]
+        fl = []
+        for b_ in bases:
+            for f in _fields[b_]:
+                fl = [x for x in fl if x[0] != f[0]] + [f]
+        for f in own_fields[cname]:
+            if any(x[0] == f[0] for x in fl):
+                fl = [f if x[0] == f[0] else x for x in fl]
+            else:
+                fl.append(f)
+        _fields[cname] = fl
+        flags = _dataclass_flags(c)
+        post = next((st for st in c.body if isinstance(st, ast.FunctionDef) and st.name == "__post_init__"), None)
+        inherited_post = None
+        for b_ in bases:
+            inherited_post = inherited_post or getattr(_classes[b_], "__dl_post__", None)
+
+        def make(cname=cname, fl=fl, flags=flags, post=post or inherited_post, bases=bases):
             def __init__(self, *args, **kw):
                 names = [f[0] for f in fl]
+                if len(args) > len(names):
+                    raise TypeError(f"{cname} takes {len(names)} positional arguments")
                 for n_, a in zip(names, args):
-                    setattr(self, n_, a)
+                    object.__setattr__(self, n_, a)
                 for k, v in kw.items():
                     if k not in names:
                         raise TypeError(k)
-                    setattr(self, k, v)
+                    object.__setattr__(self, k, v)
                 for n_, _ann, d in fl:
                     if not hasattr(self, n_):
                         if d[0] == "required":
                             raise TypeError(f"{cname} missing {n_}")
                         if d[0] == "factory":
-                            setattr(self, n_, {"list": list, "set": set, "dict": dict}.get(d[1], list)())
+                            object.__setattr__(self, n_, {"list": list, "set": set, "dict": dict}.get(d[1], list)())
                         else:
-                            setattr(self, n_, d[1])
+                            object.__setattr__(self, n_, d[1])
+                if post is not None:
+                    it = dl.Interp(am, extra_env=dict(_classes), max_steps=200000)
+                    object.__setattr__(self, "__dl_constructing__", True)
+                    try:
+                        out = it.call(post, [self])
+                    except dl.Unsupported as e:
+                        raise AnalysisError(f"{cname}.__post_init__ left the evaluable subset: {e}")
+                    finally:
+                        object.__delattr__(self, "__dl_constructing__")
+                    if out.kind == "raise":
+                        raise IRRejected(f"{cname}.__post_init__ raises {out.value}")
 
             def __repr__(self):
                 return f"{cname}({', '.join(f'{n_}={getattr(self, n_)!r}' for n_, _a, _d in fl)})"
 
-            return type(cname, (dl.Synth,), {"__init__": __init__, "__repr__": __repr__})
+            ns = {"__init__": __init__, "__repr__": __repr__, "__dl_post__": post, "__dl_frozen__": bool(flags.get("frozen")), "__dl_slots__": bool(flags.get("slots")), "__dl_ir__": True}
+            return type(cname, tuple(_classes[b_] for b_ in bases) or (dl.Synth,), ns)
 
         _classes[cname] = make()
     return _classes, _fields
@@ -214,7 +286,11 @@ def variants(cname, fixed: Optional[dict] = None, limit: int = 400):
         combos = picked
     for combo in combos:
         kw = {f[0]: v for f, v in zip(fl, combo)}
-        yield kw, cls[cname](**{k: (list(v) if isinstance(v, list) else v) for k, v in kw.items()})
+        try:
+            node = cls[cname](**{k: (list(v) if isinstance(v, list) else v) for k, v in kw.items()})
+        except IRRejected:
+            continue          # the IR class itself refuses this combination
+        yield kw, node
 
 
 def if_sites(fn_node, lo: int, hi: int):
